@@ -198,6 +198,8 @@ package native
 //@ func (*NEO).ModifyAccountVotes
 //@ may-panic
 //@ opt frame off
+//@ opt callers trust
+//@ modifies dao.kv(d, n.ID), dao.kvBal(d, n.ID), dao.kvOk(d, n.ID), dao.kvVotes(d, n.ID), dao.kvReg(d, n.ID)
 //@ requires n != nil && acc != nil && d != nil && value != nil
 //@ call PutStorageConvertible requires[tally] is(arg3, *candidate) && arg1 == n.ID && same(arg2, key) && (&arg3.(*candidate).Votes).v == dao.candVotes(si) + value.v && arg3.(*candidate).Registered == dao.candReg(si)
 //@ call dropCandidateIfZero requires[tally] (&arg4.Votes).v == dao.candVotes(si) + value.v && arg4.Registered == dao.candReg(si)
@@ -219,6 +221,42 @@ package native
 //@ ensures[untouched] !result ==> unchanged(dao.kv(d, n.ID)) && unchanged(dao.kvVotes(d, n.ID)) && unchanged(dao.kvReg(d, n.ID))
 //@ ensures[kept] result == old(!c.Registered && (&c.Votes).v == 0)
 //@ ensures[nodelete] !result ==> ncalls(DeleteStorageItem) == 0
+
+// NEO.increaseBalance (C05): the candidate tally and the voters count move by the amount of the
+// balance change and only once the debit is known to be covered: by the time either is adjusted
+// the account holds at least what is taken from it, so a transfer refused for insufficient funds
+// leaves votes and turnout as they were.
+//@ prop C05
+//@ func (*NEO).distributeGas
+//@ assumed
+//@ requires n != nil && ic != nil && acc != nil
+//@ modifies acc.BalanceHeight, acc.LastGasPerVote
+//@ func (*NEO).increaseBalance
+//@ may-panic
+//@ opt frame off
+//@ requires n != nil && ic != nil && ic.DAO != nil && si != nil && amount != nil
+//@ call ModifyAccountVotes requires[covered] amount.v < 0 && (&acc.Balance).v >= 0 ==> (&acc.Balance).v + amount.v >= 0
+//@ call ModifyAccountVotes requires[amount] arg1 == acc && arg3 == amount && amount.v == old(amount.v)
+//@ call modifyVoterTurnout requires[covered] amount.v < 0 && (&acc.Balance).v >= 0 ==> (&acc.Balance).v + amount.v >= 0
+//@ call modifyVoterTurnout requires[amount] arg2 == amount && amount.v == old(amount.v)
+//@ call modifyVoterTurnout requires[voting] acc.VoteTo != nil
+
+// Notary.OnPersist (C05: GAS owned by the Notary contract == sum of the deposits): the fees of a
+// notary-assisted transaction sent by the Notary contract are taken from the deposit of its second
+// signer - that deposit is the one read, reduced by exactly system fee + network fee, and then
+// rewritten or removed.
+//@ prop C05
+//@ func (*Notary).OnPersist
+//@ may-panic
+//@ opt frame off
+//@ opt stable ic.Block, ic.DAO, ic.Block.Transactions, ic.Block.Transactions[*]
+//@ requires n != nil && ic != nil && ic.Block != nil && ic.DAO != nil && forall(j, 0, len(ic.Block.Transactions), ic.Block.Transactions[j] != nil)
+//@ loop 0 invariant forall(j, 0, len(ic.Block.Transactions), ic.Block.Transactions[j] != nil)
+//@ call GetDepositFor requires[payer] arg2 == payer.Account && payer.Account == tx.Signers[1].Account
+//@ call removeDepositFor requires[payer] arg2 == payer.Account
+//@ call putDepositFor requires[payer] arg3 == payer.Account && arg2 == balance
+//@ call (*Int).Sub requires[fee] arg0 == balance.Amount && arg1 == balance.Amount
+//@ call (*Int).Sub requires[amount] 0 <= tx.SystemFee && tx.SystemFee < 1 << 62 && 0 <= tx.NetworkFee && tx.NetworkFee < 1 << 62 ==> arg2.v == tx.SystemFee + tx.NetworkFee
 
 // C16: a native method's handler runs only when the executing context has every flag the
 // method's descriptor asks for; before the Aspidochelone hardfork ContractManagement's deploy
